@@ -178,6 +178,12 @@ func Solve(o *Obl, query string, dir string, timeoutMs int, wantModel bool) {
 	if best.result == "sat" {
 		o.Model = best.out
 	}
+	if (best.result == "unknown" || best.result == "timeout") && len(o.Cases) > 1 && o.Expect == "" {
+		if splitByPath(o, query, file, timeoutMs) {
+			o.Result, o.Solver, o.TimeS = "unsat", fmt.Sprintf("z3-new (split over %d incoming paths)", len(o.Cases)), time.Since(start).Seconds()
+			o.Results["split"] = "unsat"
+		}
+	}
 	if best.result == "unknown" {
 		nerr := 0
 		for _, r := range o.Results {
@@ -293,4 +299,42 @@ func CrossCheck(jobs []job, budgetMs int, workers int) (confirmed int, disagreem
 	close(ch)
 	wg.Wait()
 	return
+}
+
+// splitByPath: the obligation sits in a block with several incoming forward edges; the query is
+// decided once per edge (its condition asserted) and once for "none of them" (which the reach
+// definitions refute). All cases unsat = the obligation is discharged.
+func splitByPath(o *Obl, query, file string, timeoutMs int) bool {
+	base := strings.TrimSuffix(query, "(check-sat)\n")
+	if base == query {
+		return false
+	}
+	cases := append([]string{}, o.Cases...)
+	cases = append(cases, not(or(o.Cases...)))
+	res := make([]string, len(cases))
+	var wg sync.WaitGroup
+	for i, c := range cases {
+		i, c := i, c
+		wg.Add(1)
+		go func() {
+			defer wg.Done()
+			f := fmt.Sprintf("%s.case%d.smt2", strings.TrimSuffix(file, ".smt2"), i)
+			os.WriteFile(f, []byte(base+"(assert "+c+")\n(check-sat)\n"), 0o644)
+			for _, s := range solvers[:2] {
+				r := runSolver(context.Background(), s, f, min(timeoutMs, 10000))
+				if r.result == "unsat" || r.result == "sat" {
+					res[i] = r.result
+					break
+				}
+			}
+			os.Remove(f)
+		}()
+	}
+	wg.Wait()
+	for _, r := range res {
+		if r != "unsat" {
+			return false
+		}
+	}
+	return true
 }
